@@ -275,6 +275,28 @@ def make_array_io(name, consts):
     return Unit(name, array_io_fns(), "contracts/array_io.h", "lemmas/array_io.c")
 
 
+# ---------------------------------------------------------------- array ownership operations
+OWN_SUBST = [
+    (r"(?s)\bm_ptr\s*=\s*std::make_unique\s*<\s*vector_t\s*\[\s*\]\s*>\s*\(([^;]*)\)\s*;", r"verif_unique_ptr_move_assign(&m_ptr, verif_make_unique_array(\1));", 0, True),
+    (r"(?s)std::make_unique\s*<\s*vector_t\s*\[\s*\]\s*>\s*\(", "verif_make_unique_array(", 0, True),
+    (r"\bm_ptr\s*\.\s*get\s*\(\s*\)", "m_ptr", 0, True),
+    (r"\bvector_t\b", "OUT_VEC_T", 0, True),
+]
+
+
+def make_array_own(name, consts):
+    fns = []
+    fns.append(Fn("array_copy_assign", ARRAYB, ["struct array", "struct owning_data_t"], "operator=",
+                  params_hint=r"const\s+owning_data_t\s*&", ret="ARRAY_OWN_T *", ptypes=["const ARRAY_OWN_T *"],
+                  method="ARRAY_OWN_T *self", members=["m_size", "m_ptr"], refparams=["o"], subst=OWN_SUBST,
+                  subst_post=[(r"\breturn\s*\*\s*this\s*;", "return self;", 0, True)]))
+    fns.append(Fn("array_copy_ctor", ARRAYB, ["struct array", "struct owning_data_t"], "owning_data_t",
+                  params_hint=r"^\s*const\s+owning_data_t\s*&", ret="void", ptypes=["const ARRAY_OWN_T *"], ctor=True,
+                  method="ARRAY_OWN_T *self", members=["m_size", "m_ptr"], refparams=["o"], subst=OWN_SUBST,
+                  must={"R21_ctor_init": 2}))
+    return Unit(name, fns, "contracts/array_own.h", "lemmas/array_own.c")
+
+
 def get_unit(name, consts=None):
     """name is 'base' or 'base@k=v,k=v' for units whose extraction depends on template arguments."""
     if name in UNITS:
@@ -294,3 +316,4 @@ FACTORIES["backup"] = make_backup
 FACTORIES["nn"] = make_nn
 FACTORIES["binary_io"] = make_binio
 FACTORIES["array_io"] = make_array_io
+FACTORIES["array_own"] = make_array_own
